@@ -300,7 +300,7 @@ func runC02(c *Ctx) {
 	var log []string
 	for i := 0; i < n && c.S.Viol == nil; i++ {
 		// IdP condition for this trial
-		idpKind := []string{"valid", "valid", "valid", "revoked", "401", "5xx", "garbage", "refuse", "cut"}[c.T.Choose(9)]
+		idpKind := []string{"valid", "valid", "valid", "revoked", "401", "5xx", "garbage", "refuse", "cut", "slow-valid", "slow-revoked"}[c.T.Choose(11)]
 		// clock between mint and use
 		if c.T.Bool(1, 4) {
 			c.S.Advance(time.Duration(c.T.Choose(150)) * time.Second)
@@ -313,12 +313,17 @@ func runC02(c *Ctx) {
 		}
 		now := time.Now().Add(stall)
 		tr := c02Cookie(c, key, real, realHost, ip, at, int64(exp), now)
-		idpOK := idpKind == "valid"
+		idpOK := idpKind == "valid" || idpKind == "slow-valid"
 		c.W.IdP.UserinfoFault = ""
+		c.W.IdP.UserinfoDelay = 0
 		tokRec := c.W.IdP.Tokens[at]
 		switch idpKind {
 		case "revoked":
 			tokRec.Revoked = true
+		case "slow-valid", "slow-revoked":
+			// the provider answers, but only after 1-20 s: its answer is what counts
+			c.W.IdP.UserinfoDelay = time.Duration(1+c.T.Choose(20)) * time.Second
+			tokRec.Revoked = idpKind == "slow-revoked"
 		case "valid":
 		default:
 			c.W.IdP.UserinfoFault = idpKind
@@ -336,6 +341,13 @@ func runC02(c *Ctx) {
 		before := c.W.IdP.UserinfoCalls(at)
 		tuns := StartTunnels(c, []*TunPlan{p})
 		t := tuns[0]
+		withSession := c.T.Bool(1, 3)
+		if withSession {
+			// the tunnel request also carries the session cookie of the signed-in browser
+			// (same machine): being signed in at the web side does not replace the access cookie
+			t.Client.ExtraHdr = "Cookie: RDPGWSESSION=" + b.Jar["RDPGWSESSION"] + "\r\n"
+			t.Client.Opaque = true
+		}
 		if stall > 0 {
 			c.S.Run(func() bool {
 				return t.Client.Failed != "" || t.Err != "" || len(t.Client.Packets()) >= 1 || t.Client.Ended()
@@ -347,13 +359,13 @@ func runC02(c *Ctx) {
 		// lock-step: run until the tunnel-create was answered or the stream ended
 		c.S.Run(func() bool {
 			return t.Client.Failed != "" || t.Err != "" || len(t.Client.Packets()) >= 2 || t.Client.Ended()
-		}, 3000, 5*time.Second)
+		}, 3000, 5*time.Second+c.W.IdP.UserinfoDelay)
 		c.S.Run(nil, 50, 100*time.Millisecond)
 		if t.Client.Failed != "" || t.Err != "" {
 			c.Infra("transport setup failed: %s %s", t.Client.Failed, t.Err)
 			return
 		}
-		log = append(log, fmt.Sprintf("%s/caps=%d/idp=%s/stall=%ds/age=%ds->%v", tr.kind, hsCaps, idpKind, int(stall.Seconds()), now.Unix()-mintT.Unix(), accept))
+		log = append(log, fmt.Sprintf("%s/caps=%d/idp=%s/stall=%ds/web-session=%v/age=%ds->%v", tr.kind, hsCaps, idpKind, int(stall.Seconds()), withSession, now.Unix()-mintT.Unix(), accept))
 		c.S.Count("probe.cookie." + strings.SplitN(tr.kind, ":", 2)[0])
 		if idpKind != "valid" {
 			c.S.Count("fault.idp." + idpKind)
@@ -376,6 +388,7 @@ func runC02(c *Ctx) {
 		}
 		tokRec.Revoked = false
 		c.W.IdP.UserinfoFault = ""
+		c.W.IdP.UserinfoDelay = 0
 		t.Client.CloseAll(false)
 	}
 	c.Res.Reach = n >= 4
